@@ -187,7 +187,7 @@ func SolveAll(dir string, reps []*FuncReport, timeoutS int, all bool) {
 					cache[key] = qr
 					mu.Unlock()
 				}
-				o.Result, o.Solver, o.TimeS, o.Model, o.Results = qr.Result, qr.Solver, qr.TimeS, qr.Model, qr.PerSolver
+				o.Result, o.Solver, o.TimeS, o.Model, o.Results, o.File = qr.Result, qr.Solver, qr.TimeS, qr.Model, qr.PerSolver, qr.File
 			}
 		}()
 	}
